@@ -311,6 +311,25 @@ func TestC02(t *testing.T) {
 				add(pre+`{"jsonrpc":"2.0","id":1,"method":"ok"}`+post, fmt.Sprintf("padsingle:%q:%q", pre, post))
 			}
 		}
+		// long records: a complete request (or batch) whose text ends at - or is followed by blanks up
+		// to - a power-of-two-ish offset (the read sizes of buffered decoders: 512, 1536, 3584, 4096,
+		// 7680 ...), followed by more non-blank bytes. Not valid JSON as a whole: one -32700, no call.
+		{
+			call := func(n int) string { // a valid call of exactly n bytes (padded inside a string parameter)
+				base := `{"jsonrpc":"2.0","id":1,"method":"ok","params":[""]}`
+				return strings.Replace(base, `[""]`, `["`+strings.Repeat("p", n-len(base))+`"]`, 1)
+			}
+			for _, n := range []int{511, 512, 513, 1024, 1536, 2048, 3584, 4096, 7680, 8192} {
+				for _, tail := range []string{`}`, `]`, `{"jsonrpc":"2.0","id":2,"method":"ok"}`, `garbage`, `,`, ` x`} {
+					add(call(n)+tail, fmt.Sprintf("long-exact:%d:%s", n, tail))
+					short := call(n / 2)
+					add(short+strings.Repeat(" ", n-len(short))+tail, fmt.Sprintf("long-padded:%d:%s", n, tail))
+					add("["+call(n-2)+"]"+tail, fmt.Sprintf("long-batch:%d:%s", n, tail))
+				}
+				add(call(n), fmt.Sprintf("long-valid:%d", n))
+				add(call(n/2)+strings.Repeat("\n", n), fmt.Sprintf("long-valid-padded:%d", n))
+			}
+		}
 	}
 
 	// run: group by push setting, one server each, all inside one bubble
